@@ -59,7 +59,10 @@ RULE = (
 ASSUMPTIONS = [
     "CPython 3.12 (in-process import of the generated package, inspect.signature, vars()) is the referee for parameters and for "
     "what an imported name is (class/function/module vs plain value)",
-    "excluded by construction (only one agent can know them / inspector docs): conditional definitions, annotation-only attributes, "
+    "conditional code is generated only where the visitor's rule (first binding / no-exception case) and the runtime must agree: a "
+    "succeeding `try: import` with `except ImportError: name = literal` fallbacks, and a constant-false `if` (or the else of a constant-true "
+    "`if`) re-assigning a name already bound by a def/class/import/assignment of that scope; no TYPE_CHECKING blocks",
+    "excluded by construction (only one agent can know them / inspector docs): all other conditional definitions, annotation-only attributes, "
     "callable instances, lambdas and class aliases as attribute values, sibling modules differing only by leading underscores, "
     "member names equal to sub-module names, `import pkg.x` inside pkg/__init__ (binds the package to itself), wildcard imports "
     "from package __init__ modules",
